@@ -26,8 +26,20 @@ type c18Mut struct {
 	Xor  byte   `json:"xor,omitempty"`
 }
 
+type c18KeySpec struct {
+	Where       string        `json:"where"` // trusted | stored | top
+	Account     string        `json:"account"`
+	Since       int64         `json:"since"`
+	Until       int64         `json:"until"`
+	Constraints [][][2]string `json:"constraints,omitempty"`
+	Rev         int           `json:"rev,omitempty"`
+}
+
 type c18In struct {
-	KeyWhere    string        `json:"key_where"`   // trusted | stored | unknown
+	KeyWhere    string        `json:"key_where"`   // trusted | stored | top (the backstore of a WithStackedBackstore database) | unknown
+	Rev         int           `json:"rev,omitempty"` // revision of the account-key assertion
+	// a second revision of the SAME account-key (same key id) in another layer
+	Second *c18KeySpec `json:"second,omitempty"`
 	KeyAccount  string        `json:"key_account"` // brand-id1 (the authority) | other-acct
 	Since       int64         `json:"since"`
 	Until       int64         `json:"until"` // 0: none
@@ -253,30 +265,57 @@ func c18Exec(in c18In) vh.Out {
 	restore := asserts.MockTimeNow(time.Unix(c18Base, 0))
 	defer func() { restore() }()
 
-	keyHeaders := map[string]interface{}{"since": c18Time(in.Since)}
-	if in.Until != 0 {
-		keyHeaders["until"] = c18Time(in.Until)
+	specs := []c18KeySpec{}
+	if in.KeyWhere != "unknown" {
+		specs = append(specs, c18KeySpec{in.KeyWhere, in.KeyAccount, in.Since, in.Until, in.Constraints, in.Rev})
 	}
-	if len(in.Constraints) != 0 {
-		keyHeaders["constraints"] = c18Constraints(in.Constraints)
-		keyHeaders["format"] = "1"
+	if in.Second != nil {
+		specs = append(specs, *in.Second)
 	}
-	accKey := assertstest.NewAccountKey(c18RootDB, c18Accts[in.KeyAccount], keyHeaders, c18Key.PublicKey(), "")
-
-	trusted := []asserts.Assertion{c18RootAcct, c18RootKey}
-	if in.KeyWhere == "trusted" {
-		trusted = append(trusted, c18Accts[in.KeyAccount], accKey)
+	// layers in the order Database.findAccountKey consults them: trusted, predefined (empty), [stacked top,] own store
+	trusted := []asserts.Assertion{c18RootAcct, c18RootKey, c18Accts[c18Authority], c18Accts[c18Other]}
+	store := asserts.NewMemoryBackstore()
+	top := asserts.NewMemoryBackstore()
+	stacked := false
+	layerKeys := map[string][]string{"trusted": {c18Key1(c18Root.PublicKey().ID(), "canonical", 946684800, 0, nil)}}
+	for _, sp := range specs {
+		keyHeaders := map[string]interface{}{"since": c18Time(sp.Since)}
+		if sp.Until != 0 {
+			keyHeaders["until"] = c18Time(sp.Until)
+		}
+		if len(sp.Constraints) != 0 {
+			keyHeaders["constraints"] = c18Constraints(sp.Constraints)
+			keyHeaders["format"] = "1"
+		}
+		if sp.Rev != 0 {
+			keyHeaders["revision"] = fmt.Sprint(sp.Rev)
+		}
+		accKey := assertstest.NewAccountKey(c18RootDB, c18Accts[sp.Account], keyHeaders, c18Key.PublicKey(), "")
+		switch sp.Where {
+		case "trusted":
+			trusted = append(trusted, accKey)
+		case "stored":
+			// put directly: Add refuses an account-key whose primary key is also in the trusted set, but a store
+			// filled by an earlier snapd can hold one
+			if err := store.Put(asserts.AccountKeyType, accKey); err != nil {
+				panic(err)
+			}
+		case "top":
+			stacked = true
+			if err := top.Put(asserts.AccountKeyType, accKey); err != nil {
+				panic(err)
+			}
+		default:
+			panic("bad layer " + sp.Where)
+		}
+		layerKeys[sp.Where] = append(layerKeys[sp.Where], c18Key1("\x00k0", sp.Account, sp.Since, sp.Until, sp.Constraints))
 	}
-	db, err := asserts.OpenDatabase(&asserts.DatabaseConfig{Backstore: asserts.NewMemoryBackstore(), Trusted: trusted})
+	db, err := asserts.OpenDatabase(&asserts.DatabaseConfig{Backstore: store, Trusted: trusted})
 	if err != nil {
 		panic(err)
 	}
-	if in.KeyWhere == "stored" {
-		for _, a := range []asserts.Assertion{c18Accts[c18Authority], c18Accts[c18Other], accKey} {
-			if err := db.Add(a); err != nil {
-				panic(fmt.Sprintf("setup: cannot add %s: %v", a.Type().Name, err))
-			}
-		}
+	if stacked {
+		db = db.WithStackedBackstore(top)
 	}
 
 	// the assertion, and another one signed by the same key (for swapping signatures)
@@ -360,26 +399,25 @@ func c18Exec(in c18In) vh.Out {
 			vh.CoqList(hs) + " " + share(string(content)) + " " + share(dec) + " " + share(c18Core(dec)) + ")"
 	}
 
-	trustedKeys := []string{c18Key1(c18Root.PublicKey().ID(), "canonical", 946684800, 0, nil)}
-	storedKeys := []string{}
-	k := c18Key1("\x00k0", in.KeyAccount, in.Since, in.Until, in.Constraints)
-	switch in.KeyWhere {
-	case "trusted":
-		trustedKeys = append(trustedKeys, k)
-	case "stored":
-		storedKeys = append(storedKeys, k)
+	layers := []string{vh.CoqList(layerKeys["trusted"]), "[]"}
+	if stacked {
+		layers = append(layers, vh.CoqList(layerKeys["top"]))
 	}
+	layers = append(layers, vh.CoqList(layerKeys["stored"]))
 	clock := "(CNow " + vh.CoqZ(in.Clock) + ")"
 	if in.ClockMode != "now" {
 		clock = "(CEarliest " + vh.CoqZ(in.Clock) + ")"
 	}
 	coq := "(let k0 := " + vh.CoqBytes(kid) + " in let c0 := " + vh.CoqBytes(string(content0)) + " in let s0 := " + vh.CoqBytes(sig0) +
-		" in let r0 := " + vh.CoqBytes(core0) + " in CCheck " + vh.CoqList(trustedKeys) + " " + vh.CoqList(storedKeys) + " " + clock + " " + vh.CoqBool(derr == nil) + " " + coqA + " (" +
+		" in let r0 := " + vh.CoqBytes(core0) + " in CCheck " + vh.CoqList(layers) + " " + clock + " " + vh.CoqBool(derr == nil) + " " + coqA + " (" +
 		"k0, c0, r0) s0 " + vh.CoqBool(accepted) + " " + vh.CoqBool(added) + ")"
 
 	tags := []string{"key:" + in.KeyWhere, "mut:" + in.Mut.Kind, "clock:" + in.ClockMode, "type:" + in.Type}
 	if in.KeyAccount != c18Authority {
 		tags = append(tags, "other-authority")
+	}
+	if in.Second != nil {
+		tags = append(tags, "two-revisions:"+in.KeyWhere+"+"+in.Second.Where)
 	}
 	if len(in.Constraints) != 0 {
 		tags = append(tags, "constrained")
@@ -449,6 +487,50 @@ func c18Gen(r *vh.Rand, tier string, n int) []c18In {
 			out = append(out, i)
 		}
 	}
+	// the SAME account-key at two revisions in two layers: the first layer (trusted < stacked top < own store) decides,
+	// whether it holds the newer or the older revision
+	for _, pair := range [][2]string{{"trusted", "stored"}, {"top", "stored"}, {"trusted", "top"}} {
+		valid := func(where string, rev int) c18KeySpec {
+			return c18KeySpec{Where: where, Account: c18Authority, Since: since, Until: until, Rev: rev}
+		}
+		expired := func(where string, rev int) c18KeySpec {
+			return c18KeySpec{Where: where, Account: c18Authority, Since: since, Until: since + 150, Rev: rev}
+		}
+		constrained := func(where string, rev int) c18KeySpec {
+			k := valid(where, rev)
+			k.Constraints = [][][2]string{{{"type", "test-only"}}}
+			return k
+		}
+		other := func(where string, rev int) c18KeySpec {
+			k := valid(where, rev)
+			k.Account = c18Other
+			return k
+		}
+		notYet := func(where string, rev int) c18KeySpec {
+			return c18KeySpec{Where: where, Account: c18Authority, Since: since + 1000, Until: until, Rev: rev}
+		}
+		first, later := pair[0], pair[1]
+		for _, ks := range [][2]c18KeySpec{
+			{expired(first, 1), valid(later, 0)},     // newer revision expired the key: refuse
+			{constrained(first, 1), valid(later, 0)}, // newer revision constrains the key: refuse
+			{other(first, 1), valid(later, 0)},       // newer revision moved the key to another account: refuse
+			{notYet(first, 1), valid(later, 0)},      // newer revision not yet valid: refuse
+			{valid(first, 1), expired(later, 0)},     // newer revision prolonged the key: accept
+			{valid(first, 0), expired(later, 1)},     // the OLDER revision is first: it decides (accept)
+			{expired(first, 0), valid(later, 1)},     // ... and refuses
+			{valid(first, 1), constrained(later, 0)},
+		} {
+			for _, mode := range []string{"now", "earliest"} {
+				i = base()
+				p := ks[0]
+				i.KeyWhere, i.KeyAccount, i.Since, i.Until, i.Constraints, i.Rev = p.Where, p.Account, p.Since, p.Until, p.Constraints, p.Rev
+				sec := ks[1]
+				i.Second = &sec
+				i.ClockMode = mode
+				out = append(out, i)
+			}
+		}
+	}
 	// structural mutations of a valid assertion
 	for _, k := range []string{"sigswap", "unhashed", "dupheader", "addheader", "swaplines"} {
 		for p := 0; p < 3; p++ {
@@ -483,7 +565,7 @@ func c18Gen(r *vh.Rand, tier string, n int) []c18In {
 			i.Clock = since + int64(r.Range(-3, 3)) + []int64{0, until - since}[r.Intn(2)]
 			i.Timestamp = since + int64(r.Range(-3, 3)) + []int64{0, until - since, 100}[r.Intn(3)]
 			i.ClockMode = r.Pick([]string{"now", "now", "earliest"})
-			i.KeyWhere = r.Pick([]string{"trusted", "stored", "stored", "unknown"})
+			i.KeyWhere = r.Pick([]string{"trusted", "stored", "stored", "top", "unknown"})
 			if r.Chance(1, 5) {
 				i.KeyAccount = c18Other
 			}
